@@ -313,3 +313,24 @@ func H_chan_close_wakes3() {
 	nd_assert(woken == 3, "C10.close3.all")
 	nd_reach("C10.close3")
 }
+
+// select with default: nothing ready -> default (no state change); a full buffered
+// channel refuses the send case; a ready case is committed, nil cases never fire
+func H_select_default() {
+	a, b := NewChan(8, 1), NewChan(8, 0)
+	var g, z int64
+	v := nd_int64("v")
+	_, _, try0 := TrySelect(recvOp(a, &g), recvOp(b, &g), recvOp(nil, &z), sendOp(nil, &z), sendOp(b, &z))
+	nd_assert(!try0 && g == 0, "C10.select.default.none-ready")
+	vv := v
+	i1, _, try1 := TrySelect(recvOp(nil, &z), sendOp(a, &vv))
+	nd_assert(try1 && i1 == 1, "C10.select.default.send-ready")
+	w := v + 1
+	_, _, try2 := TrySelect(sendOp(a, &w))
+	nd_assert(!try2, "C10.select.default.full")
+	i3, ok3, try3 := TrySelect(recvOp(b, &z), recvOp(a, &g))
+	nd_assert(try3 && i3 == 1 && ok3 && g == v, "C10.select.default.recv-ready")
+	_, _, try4 := TrySelect(recvOp(a, &g))
+	nd_assert(!try4, "C10.select.default.empty-again")
+	nd_reach("C10.select.default")
+}
